@@ -113,6 +113,7 @@ func runC14(r *Report) {
 	// the store's side of "lands where it belongs": AddData's per-block copy (C01.R8 re-evaluated) — the web-seed writer
 	// is the only caller that hands it several blocks at once
 	c14ReadersReport(r, "R7")
+	c14WriteReportsStored(r, "R7")
 	if c := newPieceCtx(r, "R9"); c.ok {
 		c.r8("R9")
 		// … after the re-check made in the same lock hold (C01.R4 shared): a buffer allocated outside the lock can
@@ -950,4 +951,43 @@ func c14ReadersReport(r *Report, rule string) {
 		})
 	}
 	r.Sentinel(rule+".reader-copies", n, 0)
+}
+
+// c14WriteReportsStored: (*writer).write tells its callers how many bytes the store took: its count result is built
+// only from AddData's count. AddData answers (0, nil) for a piece that is being hashed or is complete and a short
+// count for data that runs past the piece; a writer that reports the whole input as written in those cases keeps its
+// offset where it was while the source moves on, and the next bytes of the response are stored at the offset of
+// these.
+func c14WriteReportsStored(r *Report, rule string) {
+	p := r.P
+	w := p.Func("tor", "writer.write")
+	add := p.Func("tor/piece", "Pieces.AddData")
+	if !r.Anchor(rule, "tor.(*writer).write", w != nil) || !r.Anchor(rule, "piece.(*Pieces).AddData", add != nil) {
+		return
+	}
+	r.Fn(w)
+	good := true
+	var at token.Pos = w.Pos()
+	for _, ret := range returnsOf(w) {
+		res := retResults(ret)
+		if len(res) != 2 {
+			continue
+		}
+		if !sumsOnlyOf(res[0], func(v ssa.Value) bool {
+			if k, isk := constInt(v); isk && k == 0 {
+				return true
+			}
+			ex, ok := v.(*ssa.Extract)
+			if !ok || ex.Index != 0 {
+				return false
+			}
+			c, ok := ex.Tuple.(*ssa.Call)
+			return ok && c.Call.StaticCallee() == add
+		}) {
+			good = false
+			at = ret.Pos()
+		}
+	}
+	r.Check(good, rule, "writer.write/reports-the-stored-count", at, "the count returned is AddData's count (or zero)",
+		"(*writer).write can report a byte count that is not the one Pieces.AddData returned: when the store takes nothing (the piece is being hashed or is already complete) or less than it was given, the writer's offset stays behind while its source moves on, and the following bytes of the web seed's response are stored at the wrong offset")
 }
